@@ -15,7 +15,8 @@
      periph 0..2,  tr 0..3 (transits),  depot BOOLEAN,  lag, bio BOOLEAN
      metab  BOOLEAN     a metabolite compartment fed by the central compartment instead of the output
      zoin   BOOLEAN     a zero-order input into the central compartment (set_zero_order_input)
-     cov, iiv, fixd     BOOLEAN: a covariate effect / an extra IIV / a fixed theta has been added (no structural effect)
+     cov, iiv, fixd, rcov  BOOLEAN: a covariate effect / an extra IIV / a fixed theta has been added, a covariate effect
+                        removed (no structural effect; RCL / RV edit ONE variable of a multi-assignment block IF of pheno_block)
      trans  0..4        TRANS of the control stream (0: none, after a $DES model)
    Graph of a state: nodes in the order the code numbers them
        TRANSIT1..tr, DEPOT (if depot), CENTRAL, METABOLITE (if metab), PERIPHERAL1..periph;   0 = output.     *)
@@ -29,9 +30,10 @@ VARIABLE s
 vars == <<s>>
 
 Vec(a, p, d, t) == [abs |-> a, elim |-> "FO", periph |-> p, tr |-> 0, depot |-> d, lag |-> FALSE, bio |-> FALSE,
-                    metab |-> FALSE, zoin |-> FALSE, cov |-> FALSE, iiv |-> FALSE, fixd |-> FALSE, trans |-> t]
+                    metab |-> FALSE, zoin |-> FALSE, cov |-> FALSE, iiv |-> FALSE, fixd |-> FALSE, rcov |-> FALSE, trans |-> t]
 StartState ==
     ("pheno_real"   :> Vec("INST", 0, FALSE, 2)) @@      \* ADVAN1 TRANS2
+    ("pheno_block"  :> Vec("INST", 0, FALSE, 2)) @@      \* ADVAN1 TRANS2, TVCL and TVV assigned in one IF / ELSE block
     ("mox2"         :> Vec("FO",   0, TRUE,  2)) @@      \* ADVAN2 TRANS2
     ("pheno_advan3" :> Vec("INST", 1, FALSE, 3)) @@      \* ADVAN3 TRANS3
     ("pheno_advan4" :> Vec("FO",   1, TRUE,  3))         \* ADVAN4 TRANS3
@@ -132,7 +134,8 @@ ActDef ==
     ("B:1"    :> Tok("B", "on", 0))   @@ ("B:0" :> Tok("B", "off", 0)) @@
     ("M:BASIC" :> Tok("M", "basic", 0)) @@
     ("ZI"     :> Tok("Z", "on", 0))   @@
-    ("COV"    :> Tok("X", "cov", 0))  @@ ("IIV" :> Tok("X", "iiv", 0)) @@ ("FIX" :> Tok("X", "fix", 0))
+    ("COV"    :> Tok("X", "cov", 0))  @@ ("IIV" :> Tok("X", "iiv", 0)) @@ ("FIX" :> Tok("X", "fix", 0)) @@
+    ("RCL"    :> Tok("X", "rcov", 0)) @@ ("RV"  :> Tok("X", "rcov", 1))
 AllActs == DOMAIN ActDef
 
 \* post-vector the documentation names: requested category = requested value, everything else unchanged
@@ -151,6 +154,7 @@ Post(p, a) ==
       [] a.k = "M" -> [p EXCEPT !.metab = TRUE]
       [] a.k = "Z" -> [p EXCEPT !.zoin = TRUE]
       [] a.k = "X" -> CASE a.v = "cov" -> [p EXCEPT !.cov = TRUE] [] a.v = "iiv" -> [p EXCEPT !.iiv = TRUE]
+                        [] a.v = "rcov" -> [p EXCEPT !.rcov = TRUE]
                         [] OTHER -> [p EXCEPT !.fixd = TRUE]
 
 Enabled(p, a) ==
@@ -161,6 +165,7 @@ Enabled(p, a) ==
     /\ (a.k = "M" => ~p.metab /\ p.elim = "FO" /\ ~p.zoin)
     /\ (a.k = "Z" => ~p.zoin /\ ~p.metab)
     /\ (a.k = "E" => ~p.metab)
+    /\ (a.k = "X" /\ a.v = "rcov" => ~p.rcov)
     /\ Compatible(Post(p, a))
 
 Succs(p, tok) ==
@@ -180,7 +185,7 @@ DoLagTime         == \E tok \in {"L:1", "L:0"} : Step(tok)
 DoBioavailability == \E tok \in {"B:1", "B:0"} : Step(tok)
 DoAddMetabolite   == Step("M:BASIC")
 DoZeroOrderInput  == Step("ZI")
-DoParameterEdit   == \E tok \in {"COV", "IIV", "FIX"} : Step(tok)
+DoParameterEdit   == \E tok \in {"COV", "IIV", "FIX", "RCL", "RV"} : Step(tok)
 Next == \/ DoSetAbsorption \/ DoSetElimination \/ DoSetPeripherals \/ DoSetTransits \/ DoLagTime
         \/ DoBioavailability \/ DoAddMetabolite \/ DoZeroOrderInput \/ DoParameterEdit
 Spec == Init /\ [][Next]_vars
